@@ -943,4 +943,184 @@ def rule_sortall(ctx) -> RuleResult:
     return res
 
 
-RULES = [rule_cache, rule_prov, rule_match, rule_keep, rule_dev, rule_width, rule_sortall]
+_LOWER_CLAMPS = {"maximum", "fmax", "clip", "max", "where"}
+_REORDERING = {"unique", "sort", "sorted", "lexsort", "msort", "partition", "shuffle", "permutation"}
+
+
+def rule_clamp(ctx) -> RuleResult:
+    import ast
+
+    from ._c17_flow import Flow, call_name
+
+    res = RuleResult(
+        "C18.CLAMP",
+        "C18",
+        "the survey leg a depth falls in is looked up as `searchsorted(station depths, depth) - k`; that number is negative for a depth "
+        "at or above the first station, and a negative index silently wraps to the last leg: wherever such a difference is used as an "
+        "index in the Drillhole class it first passes a lower clamp (maximum / clip / where)",
+        floor=1,
+    )
+    dh = ctx.p.cls("Drillhole")
+
+    def holds(node):
+        return any(isinstance(c, ast.Call) and call_name(c) == "searchsorted" for c in ast.walk(node))
+
+    roots_fns, _holders = _analysis_roots(ctx, dh, holds)
+    for fn in sorted(roots_fns, key=lambda f: f.node.lineno):
+        v = ctx.view(fn)
+        if not holds(v.node):
+            continue
+        fl = Flow(v.node)
+
+        def clamp(e):
+            return isinstance(e, ast.Call) and call_name(e) in _LOWER_CLAMPS
+
+        def lookup_minus(e):
+            """e is `<.. searchsorted(..) ..> - k`"""
+            return isinstance(e, ast.BinOp) and isinstance(e.op, ast.Sub) and fl.nodes_of(e) and \
+                any(isinstance(x, ast.Call) and call_name(x) == "searchsorted" for x in fl.atoms(e.left, stop=clamp))
+
+        bad, uses = [], 0
+        for x in ast.walk(v.node):
+            if not (isinstance(x, ast.Subscript) and fl.nodes_of(x)):
+                continue
+            raw = [a for a in fl.atoms(x.slice, stop=clamp) if lookup_minus(a)]
+            if any(lookup_minus(a) for a in fl.atoms(x.slice)):
+                uses += 1
+            if raw:
+                bad.append(x)
+        if not uses:
+            continue
+        res.inst(f"Drillhole.{fn.name}: {uses} uses of a `searchsorted - k` index, each behind a lower clamp", nontrivial=True, ok=not bad)
+        for x in bad[:1]:
+            res.find("Drillhole", fn.prop or fn.name, "a `searchsorted(..) - k` index is used without a lower clamp", f"{fn.module.relpath}:{x.lineno}",
+                     "for a depth at (or above) the first station the index is -1 and numpy wraps to the last station: the position of depth 0 is "
+                     "computed from the bottom of the hole instead of being the collar")
+    return res
+
+
+def rule_invperm(ctx) -> RuleResult:
+    import ast
+
+    from ..model import AnalysisError
+    from ._c17_flow import Flow, key_of
+
+    res = RuleResult(
+        "C18.INVPERM",
+        "C18",
+        "after the vertices are re-ordered as vertices[perm], arrays that hold vertex indices (the cells) are renumbered through the inverse "
+        "of that permutation (argsort(perm)[cells], or an array scattered with inv[perm] = arange): gathering them through perm itself "
+        "sends each cell to two unrelated vertices",
+        floor=0,
+    )
+    dh = ctx.p.cls("Drillhole")
+    fn = dh.methods.get("sort_depths")
+    if fn is None:
+        raise AnalysisError("anchor Drillhole.sort_depths not found")
+    v = ctx.view(fn)
+    sn = v.self_name or "self"
+    fl = Flow(v.node)
+
+    def ident(e):
+        """what a name stands for at its use: the definitions reaching it"""
+        if key_of(e) is None or not fl.nodes_of(e):
+            return None
+        r, renv = fl.resolve(e)  # through aliases: `p2 = perm` is perm
+        if key_of(r) is None:
+            return ("expr", id(r))
+        ds, entry = fl.reaching(r, renv)
+        return (key_of(r), frozenset(d.id for d in ds), entry)
+
+    perms = []
+    for st in ast.walk(v.node):
+        if isinstance(st, ast.Assign) and fl.nodes_of(st.value) and any(key_of(t) == f"{sn}.vertices" for t in st.targets):
+            for x in ast.walk(st.value):
+                if isinstance(x, ast.Subscript) and key_of(fl.resolve(x.value)[0] if key_of(x.value) is not None else x.value) == f"{sn}.vertices":
+                    idx = x.slice.elts[0] if isinstance(x.slice, ast.Tuple) and x.slice.elts else x.slice
+                    if ident(idx) is not None:
+                        perms.append(ident(idx))
+    if not perms:
+        return res
+    for st in ast.walk(v.node):
+        if not (isinstance(st, ast.Assign) and fl.nodes_of(st.value) and any(key_of(t) == f"{sn}.cells" for t in st.targets)):
+            continue
+        forward = []
+        gathers = 0
+        for e in fl.cone(st.value):
+            for x in ast.walk(e):
+                if isinstance(x, ast.Subscript) and fl.nodes_of(x) and any(isinstance(a, ast.Attribute) and key_of(a) == f"{sn}.cells" for a in fl.atoms(x.slice)):
+                    gathers += 1
+                    if ident(x.value) in perms:
+                        forward.append(x)
+        if not gathers:
+            continue
+        res.inst(f"Drillhole.sort_depths:{st.lineno} cells renumbered through the inverse of the permutation applied to the vertices", nontrivial=True, ok=not forward)
+        for x in forward[:1]:
+            res.find("Drillhole", "sort_depths", "the cells are renumbered with the permutation itself instead of its inverse", f"{fn.module.relpath}:{x.lineno}",
+                     "after vertices[perm] the old vertex i sits at argsort(perm)[i]; perm[i] is the old index of the vertex now at i: every interval "
+                     "cell joins two arbitrary vertices as soon as a re-sort really moves something")
+    return res
+
+
+def rule_order(ctx) -> RuleResult:
+    import ast
+
+    from ..cache import deps
+    from ._c17_flow import Flow, call_name, key_of
+
+    res = RuleResult(
+        "C18.ORDER",
+        "C18",
+        "the survey table is stored in the row order it was given in: nothing on the data flow from the value handed to the surveys "
+        "setter to the stored table sorts or de-duplicates it (unique / sort / lexsort ...) — two stations at the same depth keep "
+        "their order, the first closes the upper leg and the second opens the lower one",
+        floor=1,
+    )
+    p = ctx.p
+    dh = p.cls("Drillhole")
+    done = set()
+    for K in p.subclasses(dh):
+        if K.synthetic:
+            continue
+        m = K.lookup("surveys")
+        if not m or m[1] != "prop" or m[2].setter is None:
+            continue
+        backing = deps(K, m[2].getter, "") if m[2].getter is not None else set()
+        work = [(m[2].setter, "store")]
+        while work:
+            fn, mode = work.pop()
+            callees_differ = K is not dh and any(K.lookup(c.func.attr) != dh.lookup(c.func.attr) for c in _self_calls(fn.node, fn.self_name or "self"))
+            key = (id(fn.node), mode, K.name if callees_differ else "")
+            if key in done:
+                continue
+            done.add(key)
+            v = ctx.view(fn)
+            sn = v.self_name or "self"
+            fl = Flow(v.node)
+            exprs = []
+            for st in ast.walk(v.node):
+                if mode == "store" and isinstance(st, (ast.Assign, ast.AnnAssign)) and st.value is not None and fl.nodes_of(st.value):
+                    tg = st.targets if isinstance(st, ast.Assign) else [st.target]
+                    if any(key_of(t) in [f"{sn}.{f}" for f in backing] for t in tg):
+                        exprs.append(st.value)
+                if mode == "return" and isinstance(st, ast.Return) and st.value is not None and fl.nodes_of(st.value):
+                    exprs.append(st.value)
+            if not exprs:
+                continue
+            atoms = [a for e in exprs for a in fl.atoms(e)]
+            bad = [c for c in atoms if isinstance(c, ast.Call) and call_name(c) in _REORDERING]
+            res.inst(f"{K.name}: {fn.qualname} hands the survey table on in the given row order", nontrivial=True, ok=not bad)
+            for c in bad[:1]:
+                res.find(fn.cls.name, fn.prop or fn.name, f"{call_name(c)} on the flow from the given survey table to the stored one", f"{fn.module.relpath}:{c.lineno}",
+                         "stations sharing a depth (a kink, a re-survey) are re-ordered by their angles: the upper leg is closed with the direction that "
+                         "should open the lower one, positions between the neighbouring stations are off and the path is no longer what was surveyed",
+                         resolved_on=K.name)
+            for c in atoms:
+                if isinstance(c, ast.Call):
+                    rc = _resolve_callee(ctx, K, v, c)
+                    if rc is not None and rc[0].node is not fn.node and rc[0].module.in_scope:
+                        work.append((rc[0], "return"))
+    return res
+
+
+RULES = [rule_cache, rule_prov, rule_match, rule_keep, rule_dev, rule_width, rule_sortall, rule_clamp, rule_invperm, rule_order]
